@@ -28,7 +28,7 @@ def make_cases(rng, _n):
         k += 1
         c.kind, c.expect_accept = kind, expect_accept
         c.forms = {kind: 1}
-        c.meanings = "(meanings (v %s (int 1)) (v %s (str %s)) (v %s (bool true)))" % (tgen.hexs("1"), tgen.hexs('"s"'), tgen.hexs("s"), tgen.hexs("true"))
+        c.meanings = "(meanings (v %s (int 1)) (v %s (str %s)) (v %s (bool true)) (m %s %s))" % (tgen.hexs("1"), tgen.hexs('"s"'), tgen.hexs("s"), tgen.hexs("true"), tgen.hexs("clone"), tgen.hexs("id"))
         t3.finish_case(c, decls, ty, value, sexp, pat)
         cases.append(c)
 
@@ -51,6 +51,22 @@ def make_cases(rng, _n):
                 for rest in (False, True):
                     parts = ["%s: %s" % (fields[i][0], lit[fields[i][1]]) for i in sub] + ([".."] if rest else [])
                     add(decls, ty, value, sexp, "%s { %s }" % (path, ", ".join(parts)), "subset%s" % ("+rest" if rest else ""), rest or len(sub) == len(fields))
+                    # the same subsets with fields reached through an operation (`a.clone(): 1`, `b.len(): 1`): a field that is only looked
+                    # through still counts as listed, and still does not excuse the ones that are not
+                    via = {"i32": "%s.clone(): 1", "u8": "%s.clone(): 1", "bool": "%s.clone(): true", "String": "%s.len(): 1"}
+                    for mode in (("first-op", "all-op") if sub else ()):
+                        parts = [(via[fields[i][1]] % fields[i][0]) if (mode == "all-op" or n_ == 0) else "%s: %s" % (fields[i][0], lit[fields[i][1]])
+                                 for n_, i in enumerate(sub)] + ([".."] if rest else [])
+                        add(decls, ty, value, sexp, "%s { %s }" % (path, ", ".join(parts)), "subset-%s%s" % (mode, "+rest" if rest else ""), rest or len(sub) == len(fields))
+                    if name == "P3" and sub:
+                        parts = ["%s: %s" % (fields[i][0], lit[fields[i][1]]) for i in sub] + ([".."] if rest else [])
+                        parts_op = [via[fields[i][1]] % fields[i][0] for i in sub] + ([".."] if rest else [])
+                        for wrapper, wty, wval, wsexp in (("Some(%s)", "Option<%s>", "Some(%s)", adt("Some", [], ["%s"])),
+                                                          ("(%s, _)", "(%s, u8)", "(%s, 1u8)", "(tuple %s (int 1))"),
+                                                          ("[%s]", "Vec<%s>", "vec![%s]", "(seq %s)")):
+                            for ps, kd in ((parts, "nested-subset"), (parts_op, "nested-subset-all-op")):
+                                add(decls, wty % ty, wval % value, wsexp % sexp, wrapper % ("%s { %s }" % (path, ", ".join(ps))),
+                                    kd + ("+rest" if rest else ""), rest or len(sub) == len(fields))
         # a field that does not exist, with and without rest
         for rest in (False, True):
             parts = ["%s: %s" % (f, lit[t]) for f, t in fields] + ["nonexistent: 1"] + ([".."] if rest else [])
@@ -113,7 +129,7 @@ def run(ck):
                       dict(t3.describe(c), expected="accept" if c.expect_accept else "reject", rustc=c.got[2][:300]))
         elif model_accepts != c.expect_accept and c.kind not in ("wrong-type", "wrong-variant-name", "wildcard-without-rest") and not c.kind.startswith(("bare-path-on", "empty-parens-on")):
             ck.report("model:%s" % c.kind, "the model's destructuring judgment disagrees with the rule the check expects", dict(t3.describe(c), model=c.expect[0]), no_input=True)
-    ck.corr_record("T3 accept/reject matrix (every subset of the fields of 5 struct / struct-variant shapes x with/without `..`, unknown fields, wrong type / variant names, wildcard structs, tuple and variant arities 0-5): rustc's verdict vs the rule and vs the model's destructuring judgment",
+    ck.corr_record("T3 accept/reject matrix (every subset of the fields of 5 struct / struct-variant shapes x with/without `..` x {fields matched directly, first / all fields reached through an operation} and nested in Some / tuple / slice, unknown fields, wrong type / variant names, wildcard structs, tuple and variant arities 0-5): rustc's verdict vs the rule and vs the model's destructuring judgment",
                    len(cases), len(cases), 0, dist,
                    samples=[dict(invocation="assert_struct!(%s)" % c.text, expected="accept" if c.expect_accept else "reject", got=c.got[0]) for c in cases[:3]],
                    exhaustive=True,
